@@ -380,7 +380,34 @@ def c17_jobs(tier):
     return jobs
 
 
+def c12_jobs(tier):
+    q = tier == "quick"
+    jobs = []
+    A = dict(solver="cvc5")
+    nsa, nb, nloop, ne = (20, 28, 24, 4 + 16) if q else (26, 44, 36, 4 + 24)
+    for k in range(33, 48):
+        top = nsa if k == 33 else (nloop if k in (44, 45, 47) else nb)
+        for n in range(0, top + 1):
+            jobs.append(job(MSG, "HStableBody", [k, n], **A))
+    for n in range(0, ne + 1):
+        jobs.append(job(EAP, "HStableEap", [n], **A))
+        jobs.append(job(MSG, "HStableBody", [48, n], **A))
+    for n in range(28, (28 + 8 if q else 28 + 10) + 1):
+        jobs.append(job(MSG, "HStableMessage", [n], **A))
+    t = 1 if q else 2
+    for k in PAYLOAD_KINDS:
+        jobs.append(job(MSG, "HCanonicalIdentity", [t, k, 0]))
+    for i in range(15):
+        jobs.append(job(MSG, "HCanonicalIdentity", [0, PAYLOAD_KINDS[i], PAYLOAD_KINDS[(i + 6) % 15], 0]))
+    jobs.append(job(MSG, "HCanonicalIdentity", [0, 0]))
+    return jobs
+
+
 PROPS = {
+    "C12": dict(jobs=c12_jobs, claim="For every byte string up to the bound (arbitrary content, per payload body decoder, per EAP packet, and whole datagrams including chains with unsupported payloads): decode ok and encode ok imply that the re-encoding decodes to an equal value and encodes to itself (fixed point after one step); canonical datagrams of the independent encoder (zero reserved bits, no unsupported payloads, exact lengths, transforms grouped by ascending type) re-encode byte-identically. Loops are unrolled (the contents of what was decoded matter), and re-encoding concretises symbolic field lengths by solver enumeration, which is what limits the bound.",
+                bounds=lambda t: "payload bodies: SA <= %d octets, TS/CP <= %d, others <= %d; EAP packets <= %d; whole datagrams <= %d octets; canonical datagrams from the generator shapes (every kind alone, 15 pairs)" % ((20, 24, 28, 20, 36) if t == "quick" else (26, 36, 44, 28, 38)),
+                outside="longer byte strings; a panic inside Encode of a decoded value would be reported as a panic violation (none found)"),
+
     "C17": dict(jobs=c17_jobs, claim="Inductive step instead of exploring histories: the SA key object starts in an arbitrary reachable state (every keyed-hash object with arbitrary octets already written - the HMAC buffer is the objects' only state and any content is reachable through a previous rejected message; ciphers satisfying the representation invariant) and one operation - protect as either role, unprotect a genuine message, reject an arbitrary datagram with invalid ICV, derive Child SA keys - must give the result a fresh object gives (accepted by / accepting a fresh peer, payloads equal, forged still rejected and the cipher not reached, keys equal to the specification), and must re-establish the invariant, which covers operation sequences of any length; two-operation sequences are run explicitly as a cross-check.",
                 bounds=lambda t: "9 suites, both roles, junk lengths %s, messages of 0..1 payloads (thorough: also SA+Notify, EAP); rejected datagrams of %s octets" % (("{0,1,7}", "12 lengths in 0..96") if t == "quick" else ("{0,1,7,8,63,64,65}", "every length 0..112")),
                 outside="states of the cipher objects that violate the invariant (Iv / Padding set by the caller: these exported fields are a test hook of the library, not reachable through its operations)",
